@@ -65,6 +65,7 @@ pub fn suites() -> Vec<(&'static str, Suite)> {
         ("stroker_hist", c20::run_stroker_hist as Suite),
         ("draw_hist", c20::run_draw_hist as Suite),
         ("stroke_repeat", c20::run_stroke_repeat as Suite),
+        ("pattern_reuse", c20::run_pattern_reuse as Suite),
     ]
 }
 
